@@ -53,7 +53,8 @@ def table(sdir, matrix, before=None):
 
 if __name__ == "__main__":
     for sdir, matrix, before in (("seeded", "matrix.json", None), ("seeded2", "matrix.json", "matrix_before_strengthening.json"),
-                                 ("seeded3", "matrix.json", "matrix_before_strengthening.json")):
+                                 ("seeded3", "matrix.json", "matrix_before_strengthening.json"),
+                                 ("seeded4", "matrix.json", "matrix_before_strengthening.json")):
         if os.path.exists(os.path.join(HERE, sdir, matrix)):
             print("#### %s\n" % sdir)
             print(table(sdir, matrix, before))
